@@ -125,3 +125,17 @@ func (v *VerifRing) Lookup(key string) string { return v.r.lookup(key) }
 
 // Len returns the number of points on the ring.
 func (v *VerifRing) Len() int { return v.r.len() }
+
+// VerifRouterRoutees returns the PIDs in the router's map, sorted by name.
+func VerifRouterRoutees(pid *PID) []*PID {
+	r := verifRouterOf(pid)
+	if r == nil {
+		return nil
+	}
+	out := make([]*PID, 0, len(r.routeesMap))
+	for _, routee := range r.routeesMap {
+		out = append(out, routee)
+	}
+	sort.Slice(out, func(i, j int) bool { return out[i].Name() < out[j].Name() })
+	return out
+}
